@@ -19,7 +19,7 @@ import (
 func StartSignReceiver(config *keygen.ConfigReceiver, selfID, otherID party.ID, hash []byte, pl *pool.Pool) protocol.StartFunc {
 	return func(sessionID []byte) (round.Session, error) {
 		info := round.Info{
-			ProtocolID:       "doerner/keygen",
+			ProtocolID:       "doerner/sign",
 			FinalRoundNumber: 2,
 			SelfID:           selfID,
 			PartyIDs:         party.NewIDSlice([]party.ID{selfID, otherID}),
@@ -29,7 +29,7 @@ func StartSignReceiver(config *keygen.ConfigReceiver, selfID, otherID party.ID, 
 
 		helper, err := round.NewSession(info, sessionID, nil)
 		if err != nil {
-			return nil, fmt.Errorf("keygen.StartKeygen: %w", err)
+			return nil, fmt.Errorf("sign.StartSign: %w", err)
 		}
 
 		return &round1R{Helper: helper, config: config, hash: hash}, nil
@@ -45,7 +45,7 @@ func StartSignReceiver(config *keygen.ConfigReceiver, selfID, otherID party.ID, 
 func StartSignSender(config *keygen.ConfigSender, selfID, otherID party.ID, hash []byte, pl *pool.Pool) protocol.StartFunc {
 	return func(sessionID []byte) (round.Session, error) {
 		info := round.Info{
-			ProtocolID:       "doerner/keygen",
+			ProtocolID:       "doerner/sign",
 			FinalRoundNumber: 2,
 			SelfID:           selfID,
 			PartyIDs:         party.NewIDSlice([]party.ID{selfID, otherID}),
@@ -55,7 +55,7 @@ func StartSignSender(config *keygen.ConfigSender, selfID, otherID party.ID, hash
 
 		helper, err := round.NewSession(info, sessionID, nil)
 		if err != nil {
-			return nil, fmt.Errorf("keygen.StartKeygen: %w", err)
+			return nil, fmt.Errorf("sign.StartSign: %w", err)
 		}
 
 		return &round1S{Helper: helper, config: config, hash: hash}, nil
